@@ -654,6 +654,6 @@ META = {
              "taken for band-last (C15_layout_guess_ambiguous_refuted) - write_cog/write_cog_layers pass the Y axis since fix "
              "1cabe7b and have no such restriction.  Overview block sizes and pixel values are GDAL's (tested: multiples of 16; "
              "external overviews preserved).  A failure of GDAL after the guard unlinked the old file is not modelled.  No axioms."),
-    "technique": "Coq proof over hand-written Gallina model + differential correspondence through real GDAL writes (vm_compute) + round-trip testing of the GDAL oracle",
+    "technique": "Coq proof over hand-written Gallina model + differential correspondence through real GDAL writes (vm_compute) + round-trip testing of the GDAL oracle + leaf functions regenerated from source by py2v on every run and proved equal to the model (source_is_model theorem)",
     "design_ref": "DESIGN.md section 5, C15",
 }
